@@ -126,6 +126,23 @@ theorem trimZero_eq_drop (s : List Char) : ∃ k, trimZero cw s = s.drop k := by
     · obtain ⟨k, hk⟩ := ih; exact ⟨k + 1, by simp [hk]⟩
     · exact ⟨0, rfl⟩
 
+/-- `keptStart` keeps the width of the kept suffix: it only ever removes zero-width characters -/
+theorem W_keptStart (n : Nat) (s : List Char) : W cw (keptStart cw n s) = W cw (s.reverse.take n) := by
+  unfold keptStart
+  split
+  · next h =>
+    have : s.reverse.take s.length = s.reverse := List.take_of_length_le (by simp)
+    rw [h, this, W_reverse]
+  · rw [W_trimZero, W_takeEnd]
+
+/-- `keptStart` is a suffix of the text -/
+theorem keptStart_eq_drop (n : Nat) (s : List Char) : ∃ k, keptStart cw n s = s.drop k := by
+  unfold keptStart
+  split
+  · exact ⟨0, rfl⟩
+  · obtain ⟨j, hj⟩ := trimZero_eq_drop cw (takeEnd n s)
+    exact ⟨s.length - n + j, by rw [hj, takeEnd_eq_drop, List.drop_drop]⟩
+
 /-- the third branch of `elide_*`: after skipping, what is left of `kept` has width `tw - skipped`
     and, together with an ellipsis of width `ew ≤ max`, fits into `max` -/
 theorem skip_bound (kept : List Char) (tw ew max : Nat) (htw : tw = W cw kept) (hew : ew ≤ max) :
